@@ -1,6 +1,6 @@
 """C08 the live topic state and the stored state never diverge.
 
-Theorems: coq/Props/PropC08.v over Sys/Topic.v + Sys/TopicCoh*.v (coherence invariant
+Theorems: coq/Props/PropC08.v over Sys/Topic.v + Sys/TopicCohC08*.v (coherence invariant
 cache = load(store), reload invisibility, ack => stored, reject => no change).
 
 This plugin is the property's correspondence AND its failing-input search:
